@@ -512,9 +512,13 @@ Print corr_bad. Print prop_bad. Print enum_bad. Print static_agree. Print static
                      sig="c15-schema-%s.%s" % (tb, fl))
     for name in static["bad_limits"] or []:
         pr = [p for p in (Lm["pairs"] + Lm["strings"] if Lm else []) if name.startswith(p["c"])]
+        # a value the translator could not READ on one side is a broken translation (the code may have been
+        # rewritten harmlessly), not a demonstrated disagreement
+        unread = bool(pr) and all(p.get("cv") is None or p.get("gv") is None for p in pr)
         chk.fail("limit_%s.json" % re.sub(r"\W+", "_", name.split(" / ")[0]),
-                 {"what": "a limit documented as shared differs between agent and daemon (or was not found on one side)",
-                  "limit": name, "values": pr}, sig="c15-limit-%s" % name.split(" / ")[0].replace(" ", ""))
+                 {"what": ("the translator could not read a limit documented as shared on one side (tools/gens/schema.py)" if unread else
+                           "a limit documented as shared differs between agent and daemon"),
+                  "limit": name, "values": pr}, sig="c15-limit-%s" % name.split(" / ")[0].replace(" ", ""), no_input=unread)
     for i in res["enum_bad"]:
         E, v, fn_, cn_, gn_ = enum_cases[i]
         chk.fail("enum_%s_%d.json" % (E, v), {"what": "enum value / union tag names differ", "enum": E, "value": v,
